@@ -384,6 +384,14 @@ func runC19(w *World, r *Report) {
 					nProved++
 					continue
 				}
+				// a slice expression is checked against the capacity of the buffer, not its length: behind a
+				// short input with spare capacity (recv[:n] of a receive buffer, a sliced decoder) it succeeds and
+				// the header is read from stale bytes — the recover never sees a panic
+				if s.Slice {
+					bad = true
+					r.Fail(VViolation, "hdrguard", fi.Key, "site:"+normSite(s.Text), w.Pos(s.Pos), fmt.Sprintf("the slice %s needs %v <= %v, which the dominating conditions {%s} do not give; a slice bound is checked against the capacity, not the length, so on a short input with spare capacity behind it the read returns stale bytes and no error is reported (the deferred recover only helps when the access panics)", s.Text, s.A, s.B, strings.Join(p.Conds, " && ")))
+					continue
+				}
 				// containment: a deferred recover was installed before this access
 				if coveredByRecover(fi, p, s) {
 					nCovered++
